@@ -219,12 +219,33 @@ func raceInstances(tier string) []Instance {
 			out = append(out, Instance{Name: p.name(), Bound: bound, Root: raceScenario(p), NoCache: false})
 		}
 	}
+	// The scenario families of the behavioural checks, re-run under the race build: their faults, cancellations,
+	// Close calls and gates reach states the workloads above do not. Only race reports (and panics) count here;
+	// the families' own oracles belong to their properties and are dropped (Focus).
+	for _, src := range []string{"C03", "C04", "C05", "C06", "C07", "C08", "C09", "C10", "C11", "C12", "C18"} {
+		c := Get(src)
+		if c == nil {
+			continue
+		}
+		for _, in := range c.Gen("quick") {
+			if in.Root == nil {
+				continue
+			}
+			in.Name = "race+" + src + "/" + in.Name
+			b := 0
+			if thorough(tier) && in.Bound > 0 {
+				b = 1
+			}
+			in.Bound, in.StartBound, in.PruneFrom = b, 0, 0
+			out = append(out, in)
+		}
+	}
 	return out
 }
 
 func init() {
 	register(&Check{ID: "C15",
-		Rule:        "14 concurrent workloads over one manager (all call types from three goroutines; calls with concurrent cancellations; configuration creation that re-sorts the node pool concurrently with Nodes/NodeIDs/Size and calls; And/Except from two goroutines on shared operands; crash+restart during traffic; Close during traffic with LastErr/Latency readers; Close racing with the sender's re-dial of a down node; released server handlers streaming concurrently; several observers of one correctable / one future; per-node + custom-type variants; stream reset with LastErr readers; WithNewNodes during calls; context end and stream reset while a send is blocked on a full transport window) x send buffer {0,1}, explored under the -race build within the deviation bound; ThreadSanitizer observes every schedule with the scheduler's hand-offs hidden (RaceDisable) and the modelled primitives' happens-before edges announced (RaceAcquire/RaceRelease); oracle: no race report whose two stacks both contain a frame of the library or its generated code; an outcome is the instance (plus each distinct report signature)",
+		Rule:        "14 concurrent workloads over one manager (all call types from three goroutines; calls with concurrent cancellations; configuration creation that re-sorts the node pool concurrently with Nodes/NodeIDs/Size and calls; And/Except from two goroutines on shared operands; crash+restart during traffic; Close during traffic with LastErr/Latency readers; Close racing with the sender's re-dial of a down node; released server handlers streaming concurrently; several observers of one correctable / one future; per-node + custom-type variants; stream reset with LastErr readers; WithNewNodes during calls; context end and stream reset while a send is blocked on a full transport window) x send buffer {0,1}, explored under the -race build within the deviation bound; plus every scheduled scenario of the checks C03-C12 and C18 (their faults, cancellations, Close calls, gated handlers) re-run under the -race build with the default schedule and all free choices (thorough: 1 deviation); ThreadSanitizer observes every schedule with the scheduler's hand-offs hidden (RaceDisable) and the modelled primitives' happens-before edges announced (RaceAcquire/RaceRelease); oracle: no race report whose two stacks both contain a frame of the library or its generated code; an outcome is the instance (plus each distinct report signature)",
 		Gen:         raceInstances,
 		Assumptions: []string{"interleaving happens at visible operations; the race detector sees the accesses between them on every explored schedule", "TSan keeps a bounded access history per memory cell", "reports with no library frame on one side (harness bookkeeping) are not counted"},
 	})
